@@ -540,6 +540,19 @@ Fixpoint k27_node (n : node) : bool :=
   end.
 Definition k27_list (l : list node) : bool := k27_l k27_node l.
 
+(* D28: a number directly followed by `-->` (CDC): the separator table of cssparser has no entry
+   for Number x CDC, `5-->` re-tokenises as the dimension `5--` and `>`.  CDC is only well-formed
+   at the top level, so only the top-level list is scanned. *)
+Fixpoint k28_list (l : list node) : bool :=
+  match l with
+  | [] => false
+  | n :: r =>
+      (match n, r with
+       | Leaf (TNum _) _, Leaf TCDC _ :: _ => true
+       | _, _ => false
+       end) || k28_list r
+  end.
+
 (* D24: cssparser prints a dimension whose unit starts with e/E followed by a digit (or by
    `-` and a digit, already escaped by the serializer... only the digit case is open) so that
    it re-tokenises as a number in scientific notation *)
@@ -560,7 +573,7 @@ Fixpoint k24_node (n : node) : bool :=
 (* whole-sheet scan for the rule-level classes; returns the list of class ids that apply *)
 Definition K13 : N := 13.  Definition K14 : N := 14.  Definition K15 : N := 15.
 Definition K17 : N := 17.  Definition K23 : N := 23.  Definition K24 : N := 24.
-Definition K25 : N := 25.  Definition K26 : N := 26.  Definition K27 : N := 27.
+Definition K25 : N := 25.  Definition K26 : N := 26.  Definition K27 : N := 27.  Definition K28 : N := 28.
 
 Definition flag (b : bool) (k : N) : list N := if b then [k] else [].
 
@@ -627,7 +640,7 @@ Fixpoint known_rules (fuel : nat) (o : opts) (l : list node) : list N :=
 Definition known (o : opts) (tree : list node) : list N :=
   nodup N.eq_dec
     (flag (k15_list tree) K15 ++ flag (k23_list false false tree None) K23
-     ++ flag (existsb k24_node tree) K24 ++ flag (k27_list tree) K27
+     ++ flag (existsb k24_node tree) K24 ++ flag (k27_list tree) K27 ++ flag (k28_list tree) K28
      ++ known_rules (S (nodes_size tree)) o tree).
 
 Definition wf_tree (o : opts) (tree : list node) : bool :=
